@@ -37,6 +37,14 @@ or missing fires, cancel events anywhere and any number of times):
     the synchronous function reading that outcome at that await would; the returned Deferred fired
     iff that synchronous function ends — `cancel_result_fires_once_with_eventual_outcome`.
 
+ENLARGED SPACE (after seeded change C05-2 was missed): every theorem is for BOTH kinds of function (`coro`):
+a generator's `yield d` hands the Deferred to `_inlineCallbacks`, a coroutine's `await d` first runs
+`Deferred.__await__`, which returns/raises an already-available result itself (`Gen.awaitC`, `Driver.runGen`);
+nested calls choose the kind of the callee (`Stmt.call w c p`).  Deferreds are fired with `Res` objects: a value or
+a failure of any `FCls` (Failure, Failure SUBCLASS instance, bare exception, Failure through `callback`) — in
+events and in cancellers; exceptions include a `BaseException` that is not an `Exception` (`Exc.base`, `raiseB`,
+`except BaseException`).  `fired_result_observed_by_isinstance` states the class-blindness explicitly.
+
 PARTIAL BY NATURE (named `…` not `…_partial` because nothing in the statement is dropped, but the
 objects are models):
   1. Python's generator/coroutine semantics are MY transcription (`Inline/Machine.lean: denote`),
@@ -59,13 +67,13 @@ def outcomes (s : State) : Nat → Option Outcome := fun i => (s.ds i).delivered
 
 /-- **Headline.** Under every schedule the asynchronous run observes what the synchronous run of
     the same program observes on the same outcomes, and delivers its result (once) iff that ends. -/
-theorem inline_matches_sync (p : Stmt) (specs : List Canc) (pre post : List Event) :
-    let s := run p specs pre post
+theorem inline_matches_sync (coro : Bool) (p : Stmt) (specs : List Canc) (pre post : List Event) :
+    let s := run coro p specs pre post
     (s.final, s.log) = ((Sync.run (outcomes s) p).1.toList, (Sync.run (outcomes s) p).2) := by
   intro s
-  have v : Inv p s := run_inv p specs pre post
+  have v : Inv coro p s := run_inv coro p specs pre post
   have hs := v.spec (outcomes s) (agrees_self s)
-  rw [← gen_sound]
+  rw [← gen_sound _ coro]
   by_cases hst : s.stack = []
   · obtain ⟨c, n', hf, he⟩ := hs.1 hst
     simp [he, hf]
@@ -83,52 +91,71 @@ theorem inline_matches_sync (p : Stmt) (specs : List Canc) (pre post : List Even
     wait — the run ends with value 1000 (the code of CancelledError) after logging four observations -/
 example :
     let p : Stmt := .seq .await (.seq (.tryExcept .await .all (.mark 7)) (.seq (.tryExcept .await .canc .skip) (.ret .acc)))
-    let s := run p [.none, .none, .noop] [] [.fire 1 (.exc (.user 4)), .fire 0 (.val 3), .cancel]
+    let s := run false p [.none, .none, .noop] [] [.fire 1 (.fail .plain (.user 4)), .fire 0 (.ok 3), .cancel]
     (s.final, s.log, (s.ds 2).cancelCalls) =
       ([.val 1000], [.aw (.val 3), .aw (.exc (.user 4)), .mk 7, .aw (.exc .cancelled)], 1) := by
   decide +kernel
 
-theorem result_fires_at_most_once (p : Stmt) (specs : List Canc) (pre post : List Event) :
-    (run p specs pre post).final.length ≤ 1 := by
-  have h := inline_matches_sync p specs pre post
+/-- non-vacuity on the enlarged space: the same program as a COROUTINE; Deferred 1 has ALREADY failed, with an
+    instance of a Failure SUBCLASS, when the coroutine reaches it (the `Deferred.__await__` shortcut: the Deferred
+    keeps its result), Deferred 0 fails later through `callback(Failure(…))`: both exceptions are raised in the function -/
+example :
+    let p : Stmt := .seq (.tryExcept .await .user (.mark 1)) (.seq (.tryExcept .await .all (.mark 7)) (.seq (.tryExcept .await .canc .skip) (.ret .acc)))
+    let s := run true p [.none, .none, .noop] [.fire 1 (.fail .sub (.user 4))] [.fire 0 (.fail .viaCallback (.user 9)), .cancel]
+    (s.final, s.log, (s.ds 2).cancelCalls, (s.ds 1).result) =
+      ([.val 1000], [.aw (.exc (.user 9)), .mk 1, .aw (.exc (.user 4)), .mk 7, .aw (.exc .cancelled)], 1,
+       some (.fail .sub (.user 4))) := by
+  decide +kernel
+
+/-- non-vacuity: a `BaseException` that is not an `Exception` passes `except Exception`, is caught by
+    `except BaseException`, and is the function's outcome when uncaught -/
+example :
+    let p : Stmt := .seq (.tryExcept (.tryExcept .await .all (.mark 1)) .base (.mark 2)) (.raiseB 5)
+    let s := run true p [] [.fire 0 (.fail .raw (.base 3))] []
+    (s.final, s.log) = ([.exc (.base 5)], [.aw (.exc (.base 3)), .mk 2]) := by
+  decide +kernel
+
+theorem result_fires_at_most_once (coro : Bool) (p : Stmt) (specs : List Canc) (pre post : List Event) :
+    (run coro p specs pre post).final.length ≤ 1 := by
+  have h := inline_matches_sync coro p specs pre post
   simp only at h
   have := congrArg Prod.fst h
   simp only at this
   rw [this]
-  cases (Sync.run (outcomes (run p specs pre post)) p).1 <;> simp
+  cases (Sync.run (outcomes (run coro p specs pre post)) p).1 <;> simp
 
 /-- the returned Deferred has fired, with `o`, exactly when the synchronous function ends with `o` -/
-theorem result_fires_iff_sync_ends (p : Stmt) (specs : List Canc) (pre post : List Event) (o : Outcome) :
-    let s := run p specs pre post
+theorem result_fires_iff_sync_ends (coro : Bool) (p : Stmt) (specs : List Canc) (pre post : List Event) (o : Outcome) :
+    let s := run coro p specs pre post
     s.final = [o] ↔ (Sync.run (outcomes s) p).1 = some o := by
   intro s
-  have h := congrArg Prod.fst (inline_matches_sync p specs pre post)
+  have h := congrArg Prod.fst (inline_matches_sync coro p specs pre post)
   simp only at h
   show s.final = [o] ↔ _
   rw [h]
   cases (Sync.run (outcomes s) p).1 <;> simp
 
-example : (run (.seq .await (.ret (.add 1))) [] [] [.fire 0 (.val 4), .fire 0 (.val 9), .cancel]).final = [.val 5] := by
+example : (run false (.seq .await (.ret (.add 1))) [] [] [.fire 0 (.ok 4), .fire 0 (.ok 9), .cancel]).final = [.val 5] := by
   decide +kernel
 
 /-- one more event -/
-theorem run_snoc (p : Stmt) (specs : List Canc) (pre post : List Event) (e : Event) :
-    run p specs pre (post ++ [e]) = step (run p specs pre post) e := by
+theorem run_snoc (coro : Bool) (p : Stmt) (specs : List Canc) (pre post : List Event) (e : Event) :
+    run coro p specs pre (post ++ [e]) = step (run coro p specs pre post) e := by
   simp [run, List.foldl_append]
 
 /-- the function waits (the returned Deferred has not fired, some activation is suspended) -/
 def waits (s : State) : Prop := s.stack ≠ []
 
 /-- `cancel()` while the function waits reaches exactly the awaited Deferred, once. -/
-theorem cancel_cancels_exactly_awaited (p : Stmt) (specs : List Canc) (pre post : List Event) :
-    let s := run p specs pre post
-    let s' := run p specs pre (post ++ [.cancel])
+theorem cancel_cancels_exactly_awaited (coro : Bool) (p : Stmt) (specs : List Canc) (pre post : List Event) :
+    let s := run coro p specs pre post
+    let s' := run coro p specs pre (post ++ [.cancel])
     waits s →
       (s'.ds (s.next - 1)).cancelCalls = (s.ds (s.next - 1)).cancelCalls + 1 ∧
       ∀ j, j ≠ s.next - 1 → (s'.ds j).cancelCalls = (s.ds j).cancelCalls := by
   intro s s' hw
-  have v : Inv p s := run_inv p specs pre post
-  have hs' : s' = step s .cancel := run_snoc p specs pre post .cancel
+  have v : Inv coro p s := run_inv coro p specs pre post
+  have hs' : s' = step s .cancel := run_snoc coro p specs pre post .cancel
   have v0 := (flagEq_mark s .cancel).inv v
   have hW := v.waiting hw
   have hne : (s.mark .cancel).stack.isEmpty = false := by
@@ -137,17 +164,17 @@ theorem cancel_cancels_exactly_awaited (p : Stmt) (specs : List Canc) (pre post 
     | cons a b => simp [h]
   have hstep : step s .cancel = cancelD (s.mark .cancel) (s.next - 1) := by
     simp only [step, cancel, hne, Bool.false_eq_true, if_false, mark_waitingOn, hW.on]
-  have f := cancelD_facts p (s.mark .cancel) v0 (s.next - 1) hW.unfired
+  have f := cancelD_facts coro p (s.mark .cancel) v0 (s.next - 1) hW.unfired
   rw [hs', hstep]
   exact ⟨f.hit, fun j hj => (f.others j hj).1⟩
 
 /-- `cancel()` when the function does not wait (it has finished) changes nothing. -/
-theorem cancel_when_done_is_noop (p : Stmt) (specs : List Canc) (pre post : List Event) :
-    let s := run p specs pre post
-    let s' := run p specs pre (post ++ [.cancel])
+theorem cancel_when_done_is_noop (coro : Bool) (p : Stmt) (specs : List Canc) (pre post : List Event) :
+    let s := run coro p specs pre post
+    let s' := run coro p specs pre (post ++ [.cancel])
     ¬ waits s → s'.ds = s.ds ∧ s'.final = s.final ∧ s'.log = s.log := by
   intro s s' hw
-  have hs' : s' = step s .cancel := run_snoc p specs pre post .cancel
+  have hs' : s' = step s .cancel := run_snoc coro p specs pre post .cancel
   have hst : s.stack = [] := by
     cases h : s.stack with
     | nil => rfl
@@ -159,7 +186,7 @@ theorem cancel_when_done_is_noop (p : Stmt) (specs : List Canc) (pre post : List
 
 example :
     let p : Stmt := .seq .await (.ret (.lit 3))
-    let s' := run p [.firesOk 1] [] ([.fire 0 (.exc (.user 2))] ++ [.cancel])
+    let s' := run true p [.firesOk 1] [] ([.fire 0 (.fail .sub (.user 2))] ++ [.cancel])
     s'.final = [.exc (.user 2)] ∧ (s'.ds 0).cancelCalls = 0 ∧ s'.log = [.aw (.exc (.user 2))] := by
   decide +kernel
 
@@ -167,17 +194,17 @@ example :
     (`CancelledError` when it chose none), no other Deferred's outcome changed, and the function has
     observed the outcomes exactly as the synchronous function would (so in particular this one, at
     the await it was blocked at). -/
-theorem cancel_function_observes_awaited_outcome (p : Stmt) (specs : List Canc) (pre post : List Event) :
-    let s := run p specs pre post
-    let s' := run p specs pre (post ++ [.cancel])
+theorem cancel_function_observes_awaited_outcome (coro : Bool) (p : Stmt) (specs : List Canc) (pre post : List Event) :
+    let s := run coro p specs pre post
+    let s' := run coro p specs pre (post ++ [.cancel])
     waits s →
       outcomes s (s.next - 1) = none ∧
       outcomes s' (s.next - 1) = some (cancelOutcome (s.ds (s.next - 1)).canc) ∧
       (∀ j, j ≠ s.next - 1 → outcomes s' j = outcomes s j) ∧
       s'.log = (Sync.run (outcomes s') p).2 := by
   intro s s' hw
-  have v : Inv p s := run_inv p specs pre post
-  have hs' : s' = step s .cancel := run_snoc p specs pre post .cancel
+  have v : Inv coro p s := run_inv coro p specs pre post
+  have hs' : s' = step s .cancel := run_snoc coro p specs pre post .cancel
   have v0 := (flagEq_mark s .cancel).inv v
   have hW := v.waiting hw
   have hne : (s.mark .cancel).stack.isEmpty = false := by
@@ -186,7 +213,7 @@ theorem cancel_function_observes_awaited_outcome (p : Stmt) (specs : List Canc) 
     | cons a b => simp [h]
   have hstep : step s .cancel = cancelD (s.mark .cancel) (s.next - 1) := by
     simp only [step, cancel, hne, Bool.false_eq_true, if_false, mark_waitingOn, hW.on]
-  have f := cancelD_facts p (s.mark .cancel) v0 (s.next - 1) hW.unfired
+  have f := cancelD_facts coro p (s.mark .cancel) v0 (s.next - 1) hW.unfired
   have hnone : outcomes s (s.next - 1) = none := by
     have := v.wfd.called (s.next - 1)
     rw [hW.unfired] at this
@@ -199,18 +226,18 @@ theorem cancel_function_observes_awaited_outcome (p : Stmt) (specs : List Canc) 
   · intro j hj
     show (s'.ds j).delivered = (s.ds j).delivered
     rw [hs', hstep]; exact (f.others j hj).2
-  · exact (congrArg Prod.snd (inline_matches_sync p specs pre (post ++ [.cancel])))
+  · exact (congrArg Prod.snd (inline_matches_sync coro p specs pre (post ++ [.cancel])))
 
 /-- The observation happens at the await the function was suspended at: the first entry logged after
     the `cancel()` is that await producing the cancelled Deferred's outcome. -/
-theorem cancel_outcome_observed_at_the_await (p : Stmt) (specs : List Canc) (pre post : List Event) :
-    let s := run p specs pre post
-    let s' := run p specs pre (post ++ [.cancel])
+theorem cancel_outcome_observed_at_the_await (coro : Bool) (p : Stmt) (specs : List Canc) (pre post : List Event) :
+    let s := run coro p specs pre post
+    let s' := run coro p specs pre (post ++ [.cancel])
     waits s → ∃ more, s'.log = s.log ++ .aw (cancelOutcome (s.ds (s.next - 1)).canc) :: more := by
   intro s s' hw
-  have v : Inv p s := run_inv p specs pre post
-  have g : GS s := run_gs p specs pre post
-  have hs' : s' = step s .cancel := run_snoc p specs pre post .cancel
+  have v : Inv coro p s := run_inv coro p specs pre post
+  have g : GS s := run_gs coro p specs pre post
+  have hs' : s' = step s .cancel := run_snoc coro p specs pre post .cancel
   have v0 := (flagEq_mark s .cancel).inv v
   have hW := v.waiting hw
   have hne : (s.mark .cancel).stack.isEmpty = false := by
@@ -220,31 +247,67 @@ theorem cancel_outcome_observed_at_the_await (p : Stmt) (specs : List Canc) (pre
   have hstep : step s .cancel = cancelD (s.mark .cancel) (s.next - 1) := by
     simp only [step, cancel, hne, Bool.false_eq_true, if_false, mark_waitingOn, hW.on]
   rw [hs', hstep]
-  exact cancelD_log p (s.mark .cancel) v0 (g.of_stack_eq rfl) (s.next - 1) hW.unfired hw hW.on
+  exact cancelD_log coro p (s.mark .cancel) v0 (g.of_stack_eq rfl) (s.next - 1) hW.unfired hw hW.on
 
 /-- …and the returned Deferred then has fired (once) iff the function's synchronous twin ends, with
     that outcome — at the cancel and at every later moment. -/
-theorem cancel_result_fires_once_with_eventual_outcome (p : Stmt) (specs : List Canc)
+theorem cancel_result_fires_once_with_eventual_outcome (coro : Bool) (p : Stmt) (specs : List Canc)
     (pre post later : List Event) :
-    let s' := run p specs pre (post ++ [.cancel] ++ later)
+    let s' := run coro p specs pre (post ++ [.cancel] ++ later)
     s'.final = (Sync.run (outcomes s') p).1.toList :=
-  congrArg Prod.fst (inline_matches_sync p specs pre (post ++ [.cancel] ++ later))
+  congrArg Prod.fst (inline_matches_sync coro p specs pre (post ++ [.cancel] ++ later))
 
 /-- non-vacuity for the cancellation theorems: a nested function (through its own Deferred) waits on
     Deferred 1 whose canceller fires the value 8; the outer function goes on with it -/
 example :
-    let p : Stmt := .seq .await (.seq (.call true (.seq .await (.ret (.add 1)))) (.ret (.add 10)))
-    let s := run p [.none, .firesOk 8] [.fire 0 (.val 2)] []
-    let s' := run p [.none, .firesOk 8] [.fire 0 (.val 2)] ([] ++ [.cancel])
+    let p : Stmt := .seq .await (.seq (.call true true (.seq .await (.ret (.add 1)))) (.ret (.add 10)))
+    let s := run false p [.none, .firesOk 8] [.fire 0 (.ok 2)] []
+    let s' := run false p [.none, .firesOk 8] [.fire 0 (.ok 2)] ([] ++ [.cancel])
     s.stack.length = 2 ∧ s.next = 2 ∧ ((s'.ds 0).cancelCalls, (s'.ds 1).cancelCalls) = (0, 1) ∧
       (s'.ds 1).delivered = some (.val 8) ∧ s'.final = [.val 19] ∧
       s'.log = [.aw (.val 2), .aw (.val 8), .cr (.val 9)] := by
   decide +kernel
 
+/-- **Failure classes.**  Whatever object an awaited Deferred that has not fired yet is fired with — a value, a
+    `Failure`, an instance of a SUBCLASS of `Failure`, a bare exception, a `Failure` given to `callback` —, the
+    outcome the Deferred then has is `r.outcome` (the exception, for every failure class; the class is not
+    observable), nobody else's outcome changes, and the function (generator or coroutine, whether it was
+    suspended on this Deferred or reaches it later through `Deferred.__await__`'s already-fired shortcut) observes
+    exactly what the synchronous function reading that outcome observes. -/
+theorem fired_result_observed_by_isinstance (coro : Bool) (p : Stmt) (specs : List Canc) (pre post : List Event)
+    (i : Nat) (r : Res) :
+    let s := run coro p specs pre post
+    let s' := run coro p specs pre (post ++ [.fire i r])
+    (s.ds i).called = false →
+      outcomes s' i = some r.outcome ∧ (∀ j, j ≠ i → outcomes s' j = outcomes s j) ∧
+      (s'.final, s'.log) = ((Sync.run (outcomes s') p).1.toList, (Sync.run (outcomes s') p).2) := by
+  intro s s' hc
+  have v : Inv coro p s := run_inv coro p specs pre post
+  have hs' : s' = step s (.fire i r) := run_snoc coro p specs pre post _
+  have v0 := (flagEq_mark s (.fire i)).inv v
+  have f := fire_facts (s.mark (.fire i)) v0.wfd i (v0.hooked_lt i) r
+  have hc0 : ((s.mark (.fire i)).ds i).called = false := hc
+  have hd : ∀ j, ((step s (.fire i r)).ds j).delivered = ((fire (s.mark (.fire i)) i r).1.ds j).delivered := by
+    intro j
+    simp only [step]
+    split <;> rename_i s'' h <;> rw [h] <;> rfl
+  refine ⟨?_, ?_, inline_matches_sync coro p specs pre (post ++ [.fire i r])⟩
+  · show (s'.ds i).delivered = _
+    rw [hs', hd]; exact (f.accepted hc0).2
+  · intro j hj
+    show (s'.ds j).delivered = (s.ds j).delivered
+    rw [hs', hd]; exact (f.others j hj).1
+
+example :
+    let p : Stmt := .seq .await (.seq (.tryExcept .await .user (.mark 3)) (.ret .acc))
+    let s' := run true p [] [] ([.fire 1 (.fail .sub (.user 6))] ++ [.fire 0 (.ok 2)])
+    outcomes s' 1 = some (.exc (.user 6)) ∧ s'.log = [.aw (.val 2), .aw (.exc (.user 6)), .mk 3] ∧ s'.final = [.val 6] := by
+  decide +kernel
+
 /-- **Part A, restated**: the resumable (generator) semantics fed immediately IS the synchronous
     big-step semantics — the link between `denote` (used by the driver) and `Sync.run`. -/
-theorem generator_semantics_matches_sync (σ : Nat → Option Outcome) (p : Stmt) :
-    ((feed σ (gen p) 0 []).1.map (·.1), (feed σ (gen p) 0 []).2) = Sync.run σ p :=
-  gen_sound σ p
+theorem generator_semantics_matches_sync (σ : Nat → Option Outcome) (coro : Bool) (p : Stmt) :
+    ((feed σ (gen coro p) 0 []).1.map (·.1), (feed σ (gen coro p) 0 []).2) = Sync.run σ p :=
+  gen_sound σ coro p
 
 end TwistedProps.C05
